@@ -72,15 +72,7 @@ fn hash_ipv4_flow(ip_packet: &[u8], num_workers: usize) -> usize {
     let src_port = u16::from_be_bytes([tcp_header[0], tcp_header[1]]);
     let dst_port = u16::from_be_bytes([tcp_header[2], tcp_header[3]]);
 
-    let mut hasher = DefaultHasher::new();
-    src_ip.hash(&mut hasher);
-    dst_ip.hash(&mut hasher);
-    src_port.hash(&mut hasher);
-    dst_port.hash(&mut hasher);
-
-    (hasher.finish() as usize)
-        .checked_rem(num_workers)
-        .unwrap_or(0)
+    hash_connection((src_ip, src_port), (dst_ip, dst_port), num_workers)
 }
 
 /// Hashes IPv6 flow (src_ip, dst_ip, src_port, dst_port).
@@ -110,18 +102,25 @@ fn hash_ipv6_flow(ip_packet: &[u8], num_workers: usize) -> usize {
     let src_port = u16::from_be_bytes([tcp_header[0], tcp_header[1]]);
     let dst_port = u16::from_be_bytes([tcp_header[2], tcp_header[3]]);
 
+    hash_connection((src_ip, src_port), (dst_ip, dst_port), num_workers)
+}
+
+/// Hashes a byte slice using DefaultHasher.
+/// Hash of a connection irrespective of direction: request and response packets of one
+/// connection must reach the same worker, because that worker owns the flow state that pairs them.
+fn hash_connection(a: (&[u8], u16), b: (&[u8], u16), num_workers: usize) -> usize {
+    let (low, high) = if a <= b { (a, b) } else { (b, a) };
     let mut hasher = DefaultHasher::new();
-    src_ip.hash(&mut hasher);
-    dst_ip.hash(&mut hasher);
-    src_port.hash(&mut hasher);
-    dst_port.hash(&mut hasher);
+    low.0.hash(&mut hasher);
+    low.1.hash(&mut hasher);
+    high.0.hash(&mut hasher);
+    high.1.hash(&mut hasher);
 
     (hasher.finish() as usize)
         .checked_rem(num_workers)
         .unwrap_or(0)
 }
 
-/// Hashes a byte slice using DefaultHasher.
 fn hash_bytes(bytes: &[u8]) -> usize {
     let mut hasher = DefaultHasher::new();
     bytes.hash(&mut hasher);
